@@ -95,6 +95,11 @@ func (m *multiReader) Read(ctx context.Context, out frame.Frame) (n int, err err
 			_ = m.q[0].Close()
 			m.q[0] = nil
 			m.q = m.q[1:]
+			if n > 0 {
+				// Read may return EOF when n > 0: these are the reader's
+				// last rows, not to be dropped.
+				return n, nil
+			}
 		case err != nil:
 			m.err = err
 			return n, err
